@@ -11,10 +11,13 @@ package main
 //	ret t i ok|err              the same callback is about to return nil / an error
 //	done t ok|fail              the runner's child context scope of task t closed with a
 //	                            commit / rollback (seen by listeners on the root scope)
-//	mwait ok|err|hang           TasksManager.Wait returned nil / an error / not at all
+//	mwait ok|err|hang           TasksManager.Wait returned nil / an error / not at all (every task manager the
+//	                            runner used in this case, see run.managers: one on the unchanged tree unless a body ran
+//	                            pip:clear; plus, for scripts run directly in the session, the session's own error)
 //	fin t ok|fail|hang          after mwait, per task of TasksManager.Names(): Task.Wait()
 //	                            returned and Task.Errors() is empty / not empty / Wait hung
-//	root ok|err                 Err() of the root scope at the very end
+//	root ok|err                 Err() of the session scope (scope= of the graph line; the application scope
+//	                            when absent) and of the application scope at the very end
 //	hacc h | hrej h             the try goroutine's Runner.Run for handler task h returned nil / an error
 //	                            (seen by a recording wrapper around the PipRunner service)
 //	stall h                     the steering controller (steerCtl) held a handler of a try block at its
@@ -52,7 +55,11 @@ import (
 	"github.com/goatcms/goatcore/app/modules/pipelinem/pipservices/namespaces"
 	"github.com/goatcms/goatcore/app/modules/pipelinem/pipservices/runner"
 	"github.com/goatcms/goatcore/app/modules/terminalm"
+	"github.com/goatcms/goatcore/app/modules/terminalm/termservices"
+	"github.com/goatcms/goatcore/app/scope"
+	"github.com/goatcms/goatcore/app/scope/contextscope"
 	"github.com/goatcms/goatcore/app/terminal"
+	"github.com/goatcms/goatcore/filesystem"
 )
 
 // Watchdogs.  They only bound how long the harness waits for something that must happen; no
@@ -347,6 +354,14 @@ type recRunner struct {
 
 func (w *recRunner) Run(pip pipservices.Pip) error {
 	err := w.inner.Run(pip)
+	if err == nil && pip.Context.Scope != nil {
+		// the task manager the runner has just put the task into (Runner.Run looked it up in the same scope)
+		hx.Guard(func() {
+			if tm, terr := w.r.tasksUnit.FromScope(pip.Context.Scope); terr == nil {
+				w.r.noteManager(tm)
+			}
+		})
+	}
 	if (pip.Name == "finally" || pip.Name == "fail" || pip.Name == "success") && pip.Namespaces != nil {
 		full := namespaces.NewSubNamespaces(pip.Namespaces, pipservices.NamasepacesParams{Task: pip.Name}).Task()
 		h := w.r.c.taskOfName(full)
@@ -367,6 +382,33 @@ type run struct {
 	rec   *recorder
 	gates *gateCtl
 	steer *steerCtl
+
+	tasksUnit pipservices.TasksUnit
+	mgrMu     sync.Mutex
+	managers  []pipservices.TasksManager // every manager a submission of this case went into, in order of first use
+}
+
+// noteManager remembers a task manager the runner used.  On the unchanged tree a case has ONE (the manager of the
+// session scope, inherited by every task below) unless a body ran pip:clear (the next pipeline command of that body
+// then creates its own) or the scripts run directly in a session (the first pipeline command creates it).
+func (r *run) noteManager(tm pipservices.TasksManager) {
+	r.mgrMu.Lock()
+	defer r.mgrMu.Unlock()
+	for _, m := range r.managers {
+		if m == tm {
+			return
+		}
+	}
+	r.managers = append(r.managers, tm)
+}
+
+func (r *run) managerAt(i int) pipservices.TasksManager {
+	r.mgrMu.Lock()
+	defer r.mgrMu.Unlock()
+	if i < len(r.managers) {
+		return r.managers[i]
+	}
+	return nil
 }
 
 // taskSID recognises the scope the runner executes a task in: an unnamed child of the task
@@ -399,7 +441,7 @@ var errProbe = errors.New("probe failed")
 
 // probe builds the callback of one probe command.  kind: p plain, g gated, f failing,
 // s = pip:run bracketed by events, y = pip:try bracketed by events, t = stops the scope it runs
-// in (Scope.Stop: done without an error), m = marker in front of an unknown / truncated command:
+// in (Scope.Stop: done without an error), c = pip:clear bracketed by events, m = marker in front of an unknown / truncated command:
 // it records `cmd` and `ret … err` for the position at which RunLoop is about to fail and returns nil.
 func (r *run) probe(kind byte) func(a app.App, ctx app.IOContext) error {
 	return func(a app.App, ctx app.IOContext) (err error) {
@@ -430,12 +472,15 @@ func (r *run) probe(kind byte) func(a app.App, ctx app.IOContext) error {
 		case 'm':
 			r.rec.emit("ret %d %d err", t, i)
 			return nil
-		case 's', 'y':
+		case 's', 'y', 'c':
 			if p, _ := hx.Guard(func() {
-				if kind == 's' {
+				switch kind {
+				case 's':
 					err = pipc.Run(a, ctx)
-				} else {
+				case 'y':
 					err = pipc.Try(a, ctx)
+				default:
+					err = pipc.Clear(a, ctx)
 				}
 			}); p {
 				r.rec.emit("panic")
@@ -491,18 +536,25 @@ func (r *run) execute() {
 		name string
 		kind byte
 	}{{"probe:begin", 'p'}, {"probe:end", 'p'}, {"probe:gate", 'g'}, {"probe:fail", 'f'}, {"probe:run", 's'}, {"probe:try", 'y'},
-		{"probe:stop", 't'}, {"probe:mark", 'm'}} {
+		{"probe:stop", 't'}, {"probe:mark", 'm'}, {"probe:clear", 'c'}} {
 		mapp.Terminal().SetCommand(terminal.NewCommand(terminal.CommandParams{Name: reg.name, Callback: r.probe(reg.kind)}))
 	}
 	var deps struct {
 		Runner    pipservices.Runner    `dependency:"PipRunner"`
 		TasksUnit pipservices.TasksUnit `dependency:"PipTasksUnit"`
+		Terminal  termservices.Terminal `dependency:"TerminalService"`
 	}
 	if err = mapp.DependencyProvider().InjectTo(&deps); err != nil {
 		r.rec.emit("panic")
 		return
 	}
-	root := mapp.Scopes().App()
+	r.tasksUnit = deps.TasksUnit
+	appScope := mapp.Scopes().App()
+	root := r.newSession(appScope)
+	if root != appScope && r.c.sessionKind() == "term" {
+		// ends the watcher goroutine of the isolated context (contextscope.NewIsolated)
+		defer hx.Guard(func() { root.Stop() })
+	}
 	cwd := mapp.Filespaces().CWD()
 	// every descendant scope hands its events to the listeners of all its ancestors
 	root.On(app.CommitEvent, r.onClose("ok"))
@@ -515,8 +567,16 @@ func (r *run) execute() {
 	// pauses of the main thread between submissions come from their own stream so that the
 	// controller (another goroutine) keeps a deterministic one
 	pause := hx.NewRand(r.c.Seed ^ 0x9e3779b97f4a7c15)
+	if r.c.direct() {
+		// nothing holds a gate for the main thread's sake: the scripts run on it
+		r.gates.releaseHold()
+	}
 	for _, t := range r.c.Top {
 		r.rec.emit("sub %d", t)
+		if r.c.direct() {
+			r.runDirect(deps.Terminal, root, cwd, t)
+			continue
+		}
 		err = deps.Runner.Run(pipservices.Pip{
 			Context: pipservices.PipContext{
 				In:    newScriptInput(r.rec, t, r.c.scriptLines(t)),
@@ -542,34 +602,85 @@ func (r *run) execute() {
 	}
 	r.gates.releaseHold()
 
-	tm, err := deps.TasksUnit.FromScope(root)
-	if err != nil {
-		r.rec.emit("panic")
-		return
-	}
-	waited := make(chan error, 1)
-	go func() {
-		var werr error
-		if p, _ := hx.Guard(func() { werr = tm.Wait() }); p {
+	if !r.c.direct() {
+		// the manager of the session scope comes first (it exists even when every submission was refused)
+		tm, terr := deps.TasksUnit.FromScope(root)
+		if terr != nil {
 			r.rec.emit("panic")
+			return
 		}
-		waited <- werr
-	}()
-	timer := time.NewTimer(mwaitTimeout())
-	defer timer.Stop()
-	select {
-	case werr := <-waited:
-		if werr != nil {
-			r.rec.emit("mwait err")
-		} else {
-			r.rec.emit("mwait ok")
+		r.mgrMu.Lock()
+		rest := []pipservices.TasksManager{tm}
+		for _, m := range r.managers {
+			if m != tm {
+				rest = append(rest, m)
+			}
 		}
-	case <-timer.C:
-		atomic.AddInt32(&hangsSeen, 1)
-		r.rec.emit("mwait hang")
-		return // the deferred releaseAll frees whatever still sits at a gate
+		r.managers = rest
+		r.mgrMu.Unlock()
+	}
+	// Wait of every manager, the session's first: when it has returned, everything nested below its tasks has
+	// closed (a task scope waits for what was started in it), so the list is complete by the time it is walked.
+	failed := false
+	for i := 0; ; i++ {
+		tm := r.managerAt(i)
+		if tm == nil {
+			break
+		}
+		waited := make(chan error, 1)
+		go func() {
+			var werr error
+			if p, _ := hx.Guard(func() { werr = tm.Wait() }); p {
+				r.rec.emit("panic")
+			}
+			waited <- werr
+		}()
+		timer := time.NewTimer(mwaitTimeout())
+		select {
+		case werr := <-waited:
+			timer.Stop()
+			failed = failed || werr != nil
+		case <-timer.C:
+			atomic.AddInt32(&hangsSeen, 1)
+			r.rec.emit("mwait hang")
+			return // the deferred releaseAll frees whatever still sits at a gate
+		}
+	}
+	if r.c.direct() && root.Err() != nil {
+		// the scripts that ran directly in the session belong to no manager: the session's context is theirs
+		failed = true
+	}
+	if failed {
+		r.rec.emit("mwait err")
+	} else {
+		r.rec.emit("mwait ok")
 	}
 
+	if r.c.direct() {
+		for _, t := range r.c.Top {
+			if root.Err() != nil {
+				r.rec.emit("fin %d fail", t)
+			} else {
+				r.rec.emit("fin %d ok", t)
+			}
+		}
+	}
+	for i := 0; ; i++ {
+		tm := r.managerAt(i)
+		if tm == nil {
+			break
+		}
+		r.reportTable(tm)
+	}
+	if root.Err() != nil || appScope.Err() != nil {
+		r.rec.emit("root err")
+	} else {
+		r.rec.emit("root ok")
+	}
+}
+
+// reportTable prints the `fin` line of every task of one manager.
+func (r *run) reportTable(tm pipservices.TasksManager) {
 	names := tm.Names()
 	sort.Strings(names)
 	for _, name := range names {
@@ -597,10 +708,53 @@ func (r *run) execute() {
 		}
 		ft.Stop()
 	}
-	if root.Err() != nil {
-		r.rec.emit("root err")
-	} else {
-		r.rec.emit("root ok")
+}
+
+// newSession creates the scope the scripts of the case run in (scope= of the graph line).
+func (r *run) newSession(appScope app.Scope) app.Scope {
+	switch r.c.sessionKind() {
+	case "new":
+		// a session with a scope of its own (a request scope, the scope handed to Terminal.RunString by a caller
+		// that is not the application's terminal): nothing is shared with the application scope
+		return scope.New(scope.Params{Name: "session"})
+	case "child":
+		// scope.NewChild defaults: context shared with the parent, data and events are children of the parent's
+		return scope.NewChild(appScope, scope.ChildParams{Name: "session"})
+	case "term":
+		// as /repo/app/modules/terminalm/termcommands/termc/terminal.go runLoop: isolated context, the DATA of
+		// the application scope itself, events not shared upwards… (child event scope)
+		return scope.NewChild(appScope, scope.ChildParams{
+			ContextScope: contextscope.NewIsolated(appScope),
+			DataScope:    appScope.BaseDataScope(),
+		})
+	}
+	return appScope
+}
+
+// runDirect runs the script of top-level task t in the session the way a terminal session does: Terminal.RunLoop on
+// a context whose scope SHARES the session's data (so whatever the commands leave there — the task manager created
+// by the first pipeline command — is what the next script finds), one script after the other.  The envelope is the
+// one of Runner.runGo: RunLoop, the error it returns is appended, Wait, Close; the scope is labelled like a task's
+// (`…(task:tN)-<id>`) so that its Commit / Rollback is recorded as `done t`.
+func (r *run) runDirect(term termservices.Terminal, session app.Scope, cwd filesystem.Filespace, t int) {
+	label := scope.NewChild(session, scope.ChildParams{Name: "task:" + taskName(t), DataScope: session.BaseDataScope()})
+	runScope := scope.NewChild(label, scope.ChildParams{DataScope: session.BaseDataScope()})
+	ctx := gio.NewIOContext(runScope, gio.NewIO(gio.IOParams{
+		In:  newScriptInput(r.rec, t, r.c.scriptLines(t)),
+		Out: gio.NewNilOutput(),
+		Err: gio.NewNilOutput(),
+		CWD: cwd,
+	}))
+	r.rec.emit("acc %d", t)
+	if p, _ := hx.Guard(func() {
+		if err := term.RunLoop(ctx, ""); err != nil {
+			runScope.AppendError(err)
+		}
+		runScope.Wait()
+		runScope.Close()
+		label.Close()
+	}); p {
+		r.rec.emit("panic")
 	}
 }
 
